@@ -26,9 +26,12 @@ Valid(c) ==
   /\ (Paired(c) <=> c.outlayout # "single")                       \* paired input gives paired output
   /\ (c.outname = "stdout" => c.outcont = "plain" /\ c.outlayout # "two")
   /\ (c.fastaflag => c.outname = "stdout")                          \* --fasta is the way to ask for FASTA on stdout
-  /\ ~(c.infmt = "fasta" /\ c.outname \in {".fastq", ".fq"})        \* FASTQ cannot be written without qualities
   /\ (c.redirect # "none" => ~Paired(c) /\ c.outname # "stdout" /\ c.incont = "plain")
-  /\ ~(c.infmt = "fasta" /\ c.redirect = ".fastq")
+
+\* FASTQ cannot be written without qualities: a name that asks for FASTQ while the input is FASTA cannot be
+\* honoured.  The format is determined by the name "identically for every compression suffix and every number
+\* of cores", so such a run must be refused identically (and never write FASTA into a file named .fastq).
+MustRefuse(c) == c.infmt = "fasta" /\ (c.outname \in {".fastq", ".fq"} \/ c.redirect = ".fastq")
 
 \* The output format: the output file name decides (before any compression suffix); on standard output
 \* --fasta decides; otherwise the input format is kept.
